@@ -37,6 +37,7 @@ def run(ck, F, tier):
     ck.rule("F3", "phase order inside decode")
     ck.rule("F4", "field effects of the two flooding passes")
     ck.rule("F5", "layered order, in-place update and initialisation")
+    ck.rule("F6", "zero-iteration shortcut of both schedules: the raw channel LLRs are tested with 'non-positive means 1' before any message is computed")
 
     from ..decmodel import phase_roles, decode_contracts
     fl_roles = phase_roles(F, FL)
@@ -203,6 +204,22 @@ def run(ck, F, tier):
         ck.inst("F3", sched + ":phase-order", names == want and uncond and init_ok, b.span,
                 "per iteration %s (unconditional: %s); initialisation once after the failed shortcut and before the loop: %s ; required %s "
                 "(steps are classified by the store they write, not by name)" % (names, uncond, init_ok, want))
+
+    # ---- F6 -----------------------------------------------------------------------------------------
+    from .c01 import trace_decode, hd_of
+    for sched, prefix in (("flooding", FL), ("layered", HL)):
+        b6, t6, _ = trace_decode(F, prefix)
+        sites6 = [x for x in t6.sites if x["kind"] == "contract" and not x["detail"].startswith(("decoder::arithmetic::", "sparse::"))]
+        first = sites6[0] if sites6 else None
+        ok6 = False
+        why6 = "the first step of decode is not the syndrome test of the input"
+        if first is not None and first["detail"] == "decoder::check_llrs":
+            hv = hd_of(F, first["vals"][2])
+            raw = first["vals"][1] == var("llrs") and first["vals"][0] == var("self.h")
+            nonpos = hv in (app("le", var("x"), num(0)), app("not", app("lt", num(0), var("x"))))
+            ok6 = raw and nonpos and not first["loops"]
+            why6 = "decode first tests check_llrs(h, llrs, hd) on the caller's LLRs (%s) with hd(x) = %r; the textbook convention is x <= 0 -> bit 1 (%s)" % (raw, hv, nonpos)
+        ck.inst("F6", sched + ":shortcut-test", ok6, first["sp"] if first else b6.span, why6)
 
     # ---- F4 -----------------------------------------------------------------------------------------
     def fields(path):
